@@ -491,7 +491,24 @@ fn run_worker_process(
         cmd.arg("--only").arg(format!("{s}:{i}"));
     }
     cmd.stdout(Stdio::piped()).stderr(Stdio::inherit()).stdin(Stdio::null());
-    let mut child = cmd.spawn().expect("spawn worker");
+    // The binary may be momentarily absent while it is being rebuilt: retry, then give up cleanly.
+    let mut child = {
+        let mut tries = 0;
+        loop {
+            match cmd.spawn() {
+                Ok(c) => break c,
+                Err(e) if tries < 30 => {
+                    tries += 1;
+                    let _ = e;
+                    std::thread::sleep(std::time::Duration::from_millis(1000));
+                }
+                Err(e) => {
+                    println!("INCONCLUSIVE: cannot start a worker process: {e}");
+                    std::process::exit(2);
+                }
+            }
+        }
+    };
     let pid = child.id();
     let stdout = child.stdout.take().unwrap();
     let (tx, rx) = std::sync::mpsc::channel::<String>();
